@@ -18,3 +18,9 @@ GROUPS = [
     mat("chgcoef", ["ILLlib_chgcoef", "matrix_addcoef"], 3, "thorough", CUT, must_fail=["reach_end", "reach_new_entry"], cut=["matrix_addrow_end"]),
     mat("getcoef", ["ILLlib_getcoef", "matrix_getcoef"], 3, "thorough"),
 ]
+
+GROUPS += [
+    Group("rows/init", "lpdata_rows.c", tus=["lpdata_mpq.c", "allocrus.c", "eg_lpnum.c"], model=MODEL, dfcc=False, unwind=7, kind="bounded", timeout=900, flags=["--no-malloc-may-fail"],
+          bound="one constructed sparsity pattern (2 rows, 2 structural columns with 3 coefficients, 2 logicals), logical columns first or last, with / without logicals, symbolic values; loops completely unwound",
+          functions=["ILLlp_rows_init"], props=["C06", "C17"]),
+]
